@@ -45,7 +45,25 @@ def falsify(ctx, case: Dict) -> bool:
                 for m in ms:
                     if len(m.candles) > 2:
                         m.calculate_index(len(m.candles) // 2)
+            # a reading series with holes in it (as a user function wrapped by Amorph or a manually set
+            # Managed series produces), carried by the default candles: counted through a default-timeframe member
+            for m in ms:
+                if bad or m.timeframe is not None or not any("gappy" in c.indicators for c in m.candles):
+                    continue
+                col = [c.indicators.get("gappy") for c in m.candles]
+                trailing = 0
+                for v in reversed(col):
+                    if v is None:
+                        break
+                    trailing += 1
+                if m.reading_count("gappy") != trailing:
+                    bad = {"relation": "reading_count", "series": "with-holes"}
+                elif not E.same_value_list(m.as_list("gappy"), col):
+                    bad = {"relation": "as_list-vs-candles", "series": "with-holes"}
+                break
             for m, spec in zip(ms, specs):
+                if bad:
+                    break
                 cs = m.candles
                 n = len(cs)
                 for nm in names_of(spec, m):
@@ -116,6 +134,14 @@ def run(ctx: core.Ctx) -> int:
         hcfg = {"fill": True} if rng.random() < 0.3 else {}
         rows = X.gen_rows(rng, n, late=0, regime=rng.choice(["flat", "walk", "up", "eqclose", "mixed", "zero_vol"]),
                           ts_mode=rng.choice(["gaps", "biggaps", "biggaps"]) if hcfg else "regular")
+        if not hcfg and rng.random() < 0.6:
+            for i_, r in enumerate(rows):
+                if i_ in (0, len(rows) - 1) and rng.random() < 0.7:
+                    r["inds"]["gappy"] = float(i_)
+                elif rng.random() < 0.75:
+                    r["inds"]["gappy"] = round(rng.uniform(-5, 5), 2)
+                else:
+                    r["inds"]["gappy"] = None
         specs, tfs = [], []
         for j in range(rng.randint(1, 3)):
             # indicators that legitimately read 0 / False: Counter, OBV on zero volume, STDEVTHRES, TR on flat candles
